@@ -45,7 +45,9 @@ def randcase(rng, s):
 def gen_case(rng, odd=False):
     pool = [rand_path(rng) for _ in range(6)]
     # (absolute prefixes too: os.path.join keeps a leading slash; a look-alike relative path must not stand in for it)
-    prefixes = [rng.choice(["pre", "pre/", "out/dir", "a", "p\\q", "src/", "/srv/out", "/srv/out/", "/", "srv/out"]) for _ in range(2)]
+    prefixes = [rng.choice(["pre", "pre/", "out/dir", "a", "p\\q", "src/", "/srv/out", "/srv/out/", "/", "srv/out",
+                           # (a prefix is a literal string, also when it contains glob metacharacters)
+                           "dist[x86]", "d*", "a?", "[p]re"]) for _ in range(2)]
     names = ["item", "other", "third"][: rng.randrange(1, 4)]
     if rng.random() < 0.3:
         # step names that differ only in case are different steps
